@@ -15,6 +15,7 @@ import (
 type Attr struct {
 	Bold, Italic, Underline, Strike bool
 	Fg, Bg                          string // "r;g;b" or ""
+	Other                           string // parameters this machine has no name for (colon sub-parameters, ...), in order
 }
 
 func (a Attr) Neutral() bool { return a == Attr{} }
@@ -39,6 +40,9 @@ func (a Attr) String() string {
 	if a.Bg != "" {
 		p = append(p, "48:"+a.Bg)
 	}
+	if a.Other != "" {
+		p = append(p, a.Other)
+	}
 	return "{" + strings.Join(p, ",") + "}"
 }
 
@@ -55,6 +59,7 @@ func (a Attr) Union(b Attr) Attr {
 	if b.Bg != "" {
 		r.Bg = b.Bg
 	}
+	r.Other = a.Other + b.Other
 	return r
 }
 
@@ -71,7 +76,7 @@ type Tok struct {
 	Raw    string
 }
 
-var sgrRe = regexp.MustCompile(`^\x1b\[([0-9;]*)m`)
+var sgrRe = regexp.MustCompile(`^\x1b\[([0-9;:]*)m`)
 
 // Tokenize splits s into SGR sequences and runes. A lone ESC (not starting a
 // well-formed SGR sequence) is returned as the rune 0x1b.
@@ -111,6 +116,7 @@ func ApplySGR(a Attr, params string) (Attr, bool) {
 	case strings.HasPrefix(params, "48;2;"):
 		a.Bg = params[5:]
 	default:
+		a.Other += "[" + params + "]"
 		return a, false
 	}
 	return a, true
